@@ -1,7 +1,9 @@
 // Command lockpoints writes a copy of pkg/device/main.go in which
-// device.SetLock calls verifsched.Point(name) before each of its three
-// system calls (os.Mkdir, os.OpenFile, syscall.Flock).  Keyed on syntax,
-// not on line numbers.
+// device.SetLock calls verifsched.Point(name) before each statement that
+// makes a system call (a call of a function of package os or syscall, or a
+// method of the lock file handle that reaches the kernel: Stat, Close).
+// Statements are instrumented where they stand, also inside loops and
+// branches.  Keyed on syntax, not on line numbers.
 //
 //	lockpoints <repo go dir> <out file>
 package main
@@ -16,7 +18,82 @@ import (
 	"os"
 	"path/filepath"
 	"strconv"
+	"strings"
 )
+
+var names = map[string]string{"os.Mkdir": "mkdir", "os.OpenFile": "open", "syscall.Flock": "flock"}
+
+// callName returns the name of the first system call made directly by the
+// statement (nested blocks are instrumented on their own).
+func callName(st ast.Stmt) string {
+	name := ""
+	ast.Inspect(st, func(n ast.Node) bool {
+		if n == nil || name != "" {
+			return false
+		}
+		if _, ok := n.(*ast.BlockStmt); ok && n != ast.Node(st) {
+			return false
+		}
+		if _, ok := n.(*ast.FuncLit); ok {
+			return false
+		}
+		if ce, ok := n.(*ast.CallExpr); ok {
+			if se, ok := ce.Fun.(*ast.SelectorExpr); ok {
+				if id, ok := se.X.(*ast.Ident); ok {
+					full := id.Name + "." + se.Sel.Name
+					switch {
+					case names[full] != "":
+						name = names[full]
+					case (id.Name == "os" || id.Name == "syscall") && se.Sel.Name != "O_CREATE":
+						name = strings.ToLower(se.Sel.Name)
+					case se.Sel.Name == "Stat" || se.Sel.Name == "Close":
+						name = strings.ToLower(id.Name + "." + se.Sel.Name)
+					}
+				}
+			}
+		}
+		return true
+	})
+	return name
+}
+
+var found = map[string]bool{}
+
+func instrument(list []ast.Stmt) []ast.Stmt {
+	var out []ast.Stmt
+	for _, st := range list {
+		// nested blocks first
+		switch t := st.(type) {
+		case *ast.ForStmt:
+			t.Body.List = instrument(t.Body.List)
+		case *ast.RangeStmt:
+			t.Body.List = instrument(t.Body.List)
+		case *ast.BlockStmt:
+			t.List = instrument(t.List)
+		case *ast.IfStmt:
+			for s := t; s != nil; {
+				s.Body.List = instrument(s.Body.List)
+				switch e := s.Else.(type) {
+				case *ast.IfStmt:
+					s = e
+				case *ast.BlockStmt:
+					e.List = instrument(e.List)
+					s = nil
+				default:
+					s = nil
+				}
+			}
+		}
+		if name := callName(st); name != "" {
+			found[name] = true
+			out = append(out, &ast.ExprStmt{X: &ast.CallExpr{
+				Fun:  &ast.SelectorExpr{X: ast.NewIdent("verifsched"), Sel: ast.NewIdent("Point")},
+				Args: []ast.Expr{&ast.BasicLit{Kind: token.STRING, Value: strconv.Quote(name)}}}})
+		}
+		out = append(out, st)
+	}
+	return out
+}
 
 func main() {
 	if len(os.Args) != 3 {
@@ -30,41 +107,18 @@ func main() {
 		fmt.Fprintln(os.Stderr, err)
 		os.Exit(1)
 	}
-	targets := map[string]string{"os.Mkdir": "mkdir", "os.OpenFile": "open", "syscall.Flock": "flock"}
-	found := map[string]bool{}
 	for _, d := range f.Decls {
 		fd, ok := d.(*ast.FuncDecl)
 		if !ok || fd.Name.Name != "SetLock" || fd.Body == nil {
 			continue
 		}
-		var out []ast.Stmt
-		for _, st := range fd.Body.List {
-			name := ""
-			ast.Inspect(st, func(n ast.Node) bool {
-				if ce, ok := n.(*ast.CallExpr); ok {
-					if se, ok := ce.Fun.(*ast.SelectorExpr); ok {
-						if id, ok := se.X.(*ast.Ident); ok {
-							if p, ok := targets[id.Name+"."+se.Sel.Name]; ok && name == "" {
-								name = p
-							}
-						}
-					}
-				}
-				return true
-			})
-			if name != "" {
-				found[name] = true
-				out = append(out, &ast.ExprStmt{X: &ast.CallExpr{
-					Fun:  &ast.SelectorExpr{X: ast.NewIdent("verifsched"), Sel: ast.NewIdent("Point")},
-					Args: []ast.Expr{&ast.BasicLit{Kind: token.STRING, Value: strconv.Quote(name)}}}})
-			}
-			out = append(out, st)
-		}
-		fd.Body.List = out
+		fd.Body.List = instrument(fd.Body.List)
 	}
-	if len(found) != 3 {
-		fmt.Fprintf(os.Stderr, "instrumentation point not found: SetLock system calls found: %v\n", found)
-		os.Exit(1)
+	for _, need := range []string{"open", "flock"} {
+		if !found[need] {
+			fmt.Fprintf(os.Stderr, "instrumentation point not found: SetLock system calls found: %v\n", found)
+			os.Exit(1)
+		}
 	}
 	// add the import
 	imp := &ast.ImportSpec{Path: &ast.BasicLit{Kind: token.STRING, Value: strconv.Quote("github.com/hknutzen/Netspoc-Approve/go/pkg/verifsched")}}
